@@ -201,7 +201,9 @@ theorem tm_length_set_le (kw : AMap Nat WKey) (id : Nat) (v : WKey) : (kw.set id
 /-! ## 2  the parts of the measure -/
 
 /-- own actions a client still has to take in its call, plus one for every hand-over of a full buffer its `pool.add`
-    (or its `buf.send_shutdown`) may still put into the consumer's queue -/
+    (or its `buf.send_shutdown`) may still put into the consumer's queue.  A multi-key read: five per key still to do
+    (the outer flag load of the iterator, the flag load inside `get`, the lookup, the access record and the buffer it
+    may hand over), one for the flag load in hand, one for the outer load, one for the first step. -/
 def tm_own : CPc → Nat
   | .idle => 0
   | .start r =>
@@ -213,7 +215,7 @@ def tm_own : CPc → Nat
      | .upsert _ _ _ _ _ => 7
      | .getRef _ => 5
      | .shutdown => 14
-     | .mget ks _ => 3 * ks.length + 2)
+     | .mget ks _ => 5 * ks.length + 3)
   | .putPresent _ _ _ _ => 3
   | .idNext _ _ _ _ => 2
   | .send _ => 1
@@ -240,8 +242,14 @@ def tm_own : CPc → Nat
   | .shutAfClear => 3
   | .shutStatsClear => 2
   | .shutTtlClear => 1
-  | .mgetStore _ ks _ _ => 3 * ks.length + 3
-  | .mgetPool _ _ ks _ _ => 3 * ks.length + 2
+  | .mgetStore _ ks _ _ => 5 * ks.length + 5
+  | .mgetPool _ _ ks _ _ => 5 * ks.length + 4
+  | .mgetFlag true ks _ _ => 5 * ks.length + 2
+  | .mgetFlag false ks _ _ => 5 * ks.length + 1
+
+theorem tm_own_mgetFlag (outer : Bool) (ks : List Nat) (acc : List (Option Nat)) (iter : Bool) :
+    tm_own (.mgetFlag outer ks acc iter) = 5 * ks.length + 1 + outer.toNat := by
+  cases outer <;> rfl
 
 /-- commands the client may still put into the command queue in its call (0 or 1) -/
 def tm_cmds : CPc → Nat
@@ -755,20 +763,66 @@ theorem tm_cr_upAfter {b : BState} {i : Nat} {pc : CPc} (b0 : BState) (id : Nat)
       omega
   · exact tm_cr_spot b0 _ hcl hw hsw hkw (by omega) (by omega)
 
-/-- a multi-key read moves on: the call returns, or stands at the `store.get` of the next key -/
+/-- a multi-key read moves on: the call returns, or stands before the first flag load of the next key -/
 theorem tm_cr_mgetNext {b : BState} {i : Nat} {pc : CPc} (b0 : BState) (ks : List Nat) (acc : List (Option Nat))
     (iter : Bool) (hcl : b0.cl = b.cl) (hw : b0.w = b.w) (hsw : b0.sw = b.sw)
     (hkw : b0.g.adm.kw = b.g.adm.kw ∨ b0.g.adm.kw = [])
     (hq : b0.g.queue.length ≤ b.g.queue.length + tm_cmds pc)
-    (hb : b0.g.bufq.length + 3 * ks.length + 1 ≤ b.g.bufq.length + tm_own pc) :
+    (hb : b0.g.bufq.length + 5 * ks.length + 3 ≤ b.g.bufq.length + tm_own pc) :
     tm_CR b i pc (mgetNext b0 i ks acc iter) := by
-  rcases mgetNext_spec b0 i ks acc iter with ⟨out, e⟩ | ⟨k, rest, hks, _, e⟩ <;> rw [e]
-  · exact tm_cr_fin b0 out hcl hw hsw hkw hq (by omega)
+  rcases mgetNext_spec b0 i ks acc iter with ⟨_, e⟩ | ⟨k, rest, hks, e⟩ <;> rw [e]
+  · exact tm_cr_fin b0 _ hcl hw hsw hkw hq (by omega)
   · subst hks
+    refine tm_cr_set b0 _ hcl hw hsw hkw ?_ ?_
+    · have : tm_cmds (.mgetFlag iter (k :: rest) acc iter) = 0 := rfl
+      omega
+    · have h1 := tm_own_mgetFlag iter (k :: rest) acc iter
+      have h2 : iter.toNat ≤ 1 := Bool.toNat_le iter
+      omega
+
+/-- the first step of a multi-key read: the call returns (an iterator over no keys), or stands before the outer flag
+    load -/
+theorem tm_cr_mgetStart {b : BState} {i : Nat} {pc : CPc} (b0 : BState) (ks : List Nat) (iter : Bool)
+    (hcl : b0.cl = b.cl) (hw : b0.w = b.w) (hsw : b0.sw = b.sw)
+    (hkw : b0.g.adm.kw = b.g.adm.kw ∨ b0.g.adm.kw = [])
+    (hq : b0.g.queue.length ≤ b.g.queue.length + tm_cmds pc)
+    (hb : b0.g.bufq.length + 5 * ks.length + 3 ≤ b.g.bufq.length + tm_own pc) :
+    tm_CR b i pc (mgetStart b0 i ks iter) := by
+  rcases mgetStart_spec b0 i ks iter with ⟨_, _, e⟩ | ⟨_, e⟩ <;> rw [e]
+  · exact tm_cr_fin b0 _ hcl hw hsw hkw hq (by omega)
+  · refine tm_cr_set b0 _ hcl hw hsw hkw ?_ ?_
+    · have : tm_cmds (.mgetFlag true ks [] iter) = 0 := rfl
+      omega
+    · have : tm_own (.mgetFlag true ks [] iter) = 5 * ks.length + 2 := rfl
+      omega
+
+/-- one flag load of a multi-key read: the call returns, or stands before the load inside `get`, or moves on to the
+    next key (`get` answered `None` without a lookup), or stands at the lookup -/
+theorem tm_cr_mgetFlagAct {b : BState} {i : Nat} {pc : CPc} (b0 : BState) (outer : Bool) (ks : List Nat)
+    (acc : List (Option Nat)) (iter : Bool) (hcl : b0.cl = b.cl) (hw : b0.w = b.w) (hsw : b0.sw = b.sw)
+    (hkw : b0.g.adm.kw = b.g.adm.kw ∨ b0.g.adm.kw = [])
+    (hq : b0.g.queue.length ≤ b.g.queue.length + tm_cmds pc)
+    (hb : b0.g.bufq.length + tm_own (.mgetFlag outer ks acc iter) ≤ b.g.bufq.length + tm_own pc) :
+    tm_CR b i pc (mgetFlagAct b0 i outer ks acc iter) := by
+  rw [tm_own_mgetFlag] at hb
+  rcases mgetFlagAct_spec b0 i outer ks acc iter with
+    ⟨_, e⟩ | ⟨k, rest, hks, ho, _, e⟩ | ⟨k, rest, hks, ho, _, e⟩ | ⟨k, rest, hks, ho, _, e⟩ <;> rw [e]
+  · exact tm_cr_fin b0 _ hcl hw hsw hkw hq (by omega)
+  · subst hks ho
+    refine tm_cr_set b0 _ hcl hw hsw hkw ?_ ?_
+    · have : tm_cmds (.mgetFlag false (k :: rest) acc iter) = 0 := rfl
+      omega
+    · have : tm_own (.mgetFlag false (k :: rest) acc iter) = 5 * (k :: rest).length + 1 := rfl
+      simp only [Bool.toNat_true] at hb
+      omega
+  · subst hks ho
+    simp only [List.length_cons] at hb
+    exact tm_cr_mgetNext b0 rest _ iter hcl hw hsw hkw hq (by omega)
+  · subst hks ho
     refine tm_cr_set b0 _ hcl hw hsw hkw ?_ ?_
     · have : tm_cmds (.mgetStore k rest acc iter) = 0 := rfl
       omega
-    · have : tm_own (.mgetStore k rest acc iter) = 3 * rest.length + 3 := rfl
+    · have : tm_own (.mgetStore k rest acc iter) = 5 * rest.length + 5 := rfl
       simp only [List.length_cons] at hb
       omega
 
@@ -802,7 +856,8 @@ local macro "tm_close" h:ident : tactic =>
                | (refine tm_cr_fin _ _ rfl rfl rfl (Or.inl rfl) ?_ ?_ <;> tm_num)
                | (refine tm_cr_spot _ _ rfl rfl rfl (Or.inl rfl) ?_ ?_ <;> tm_num)
                | (refine tm_cr_upAfter _ _ _ rfl rfl rfl (Or.inl rfl) ?_ ?_ <;> tm_num)
-               | (refine tm_cr_mgetNext _ _ _ _ rfl rfl rfl (Or.inl rfl) ?_ ?_ <;> tm_num)))
+               | (refine tm_cr_mgetNext _ _ _ _ rfl rfl rfl (Or.inl rfl) ?_ ?_ <;> tm_num)
+               | (refine tm_cr_mgetStart _ _ _ rfl rfl rfl (Or.inl rfl) ?_ ?_ <;> tm_num)))
 
 /-- **One action of a client** (`tm_CR`). -/
 theorem tm_client_step {b b' : BState} {i : Nat} {o o' : Oracle} (h : clientAct b i o = .ok (b', o')) :
@@ -979,6 +1034,12 @@ theorem tm_client_step {b b' : BState} {i : Nat} {o o' : Oracle} (h : clientAct 
         · simp only [hq]; omega
         · simp only [tm_own]; omega
       · cases h
+    | mgetFlag outer ks acc iter =>
+      simp only [Except.ok.injEq, Prod.mk.injEq] at h
+      obtain ⟨rfl, -⟩ := h
+      refine tm_cr_mgetFlagAct _ _ _ _ _ rfl rfl rfl (Or.inl rfl) ?_ ?_
+      · simp only [tm_cmds]; omega
+      · exact Nat.le_refl _
 
 
 /-! ## 5  every internal action lowers the measure -/
